@@ -83,3 +83,37 @@ pub proof fn lemma_strip_zero(s: Seq<u8>, t: Seq<u8>, r: int)
     lemma_text_uncons(s);
     lemma_leading_zero(t, r);
 }
+
+/// "starts with the one-byte pattern c"
+pub proof fn lemma_starts1(s: Seq<u8>, c: u8)
+    ensures starts_with(s, seq![c]) == (s.len() > 0 && s[0] == c),
+{
+    if s.len() > 0 {
+        assert(s.subrange(0, 1)[0] == s[0]);
+        assert(seq![c][0] == c);
+        if s[0] == c { assert(s.subrange(0, 1) =~= seq![c]); }
+    }
+}
+
+/// the three prefix literals as byte strings
+pub proof fn lemma_prefix_lits()
+    ensures "0b".ascii() && "0b".enc() == PFX_B(), "0o".ascii() && "0o".enc() == PFX_O(), "0x".ascii() && "0x".enc() == PFX_X(),
+{
+    reveal_strlit("0b");
+    reveal_strlit("0o");
+    reveal_strlit("0x");
+    assert("0b".enc() =~= PFX_B());
+    assert("0o".enc() =~= PFX_O());
+    assert("0x".enc() =~= PFX_X());
+}
+
+/// a text starts with at most one of the three prefixes
+pub proof fn lemma_prefixes_differ(s: Seq<u8>)
+    ensures !(starts_with(s, PFX_B()) && starts_with(s, PFX_O())), !(starts_with(s, PFX_B()) && starts_with(s, PFX_X())),
+        !(starts_with(s, PFX_O()) && starts_with(s, PFX_X())),
+{
+    if s.len() >= 2 {
+        assert(s.subrange(0, 2)[1] == s[1]);
+        assert(PFX_B()[1] == 98 && PFX_O()[1] == 111 && PFX_X()[1] == 120);
+    }
+}
